@@ -468,7 +468,7 @@ func TestVP_C12_kernel_prepared(t *testing.T) {
 	if kit.Replaying() {
 		return
 	}
-	c := kit.New(t, "C12", "deterministic sweep over the 512 nonces pre-committed by the unmodified cosiPrepareRandomsAndSendCommitments (bare node, Peer without neighbours, mock clock): every commitment is looked up under snapshot A (handed out), again under A (same object), under B (refused), and again after the next cosiPrepareRandomsAndSendCommitments call; non-trivial = every commitment; distinct by index (the nonce values come from the production random source; verdict and counts do not depend on them)")
+	c := kit.New(t, "C12", "deterministic sweep over the 512 nonces pre-committed by the unmodified cosiPrepareRandomsAndSendCommitments (bare node, Peer without neighbours, mock clock): every commitment is looked up under snapshot A (handed out), again under A (same object), under B (refused), and again after the next cosiPrepareRandomsAndSendCommitments call; then the retained set is filled beyond its capacity (131072) and the newest bindings must still be found on repeat; non-trivial = every commitment; distinct by index (the nonce values come from the production random source; verdict and counts do not depend on them)")
 	defer clock.Reset()
 	vpC12SetClock(vpKMEpochDefault + 400*vpKMDay)
 	cache := vpKMNewCache()
@@ -536,5 +536,31 @@ func TestVP_C12_kernel_prepared(t *testing.T) {
 			t.Fatalf("nonce %d bound to snapshot A not found again after the next batch", i)
 		}
 	}
-	c.Sample(map[string]any{"precommitted": len(all), "second_batch": len(chain.CosiRandoms)})
+	// a verifier that has served very many full challenges keeps a bounded
+	// number of bindings (oldest dropped first). The binding made LAST must be
+	// among those kept: the leader repeating the newest full challenge finds
+	// the same nonce. The retained set is filled through the production
+	// function with placeholder snapshots.
+	filler := objects[all[0]]
+	for i := 0; i < 1024*128+64; i++ {
+		chain.retainUsedCosiNonce(crypto.Blake3Hash([]byte(fmt.Sprintf("c12k-filler-%d", i))), filler)
+	}
+	var fresh []crypto.Key
+	for k := range chain.CosiRandoms {
+		fresh = append(fresh, k)
+	}
+	sort.Slice(fresh, func(i, j int) bool { return bytes.Compare(fresh[i][:], fresh[j][:]) < 0 })
+	for i, k := range fresh[:16] {
+		a := crypto.Blake3Hash(append([]byte("D"), k[:]...))
+		kk := k
+		first := chain.cosiRetrieveRandom(a, peer, &kk)
+		if first == nil || first.Public() != k {
+			t.Fatalf("pre-committed nonce %d not handed out by a verifier with a full retained set", i)
+		}
+		if again := chain.cosiRetrieveRandom(a, peer, &kk); again != first {
+			t.Fatalf("a verifier holding %d retained bindings does not find the binding it made last again (repeat of the newest full challenge, nonce %d)", len(chain.UsedRandoms), i)
+		}
+		c.Case(fmt.Sprint("retained-at-capacity", i), true, "retained-at-capacity")
+	}
+	c.Sample(map[string]any{"precommitted": len(all), "second_batch": len(chain.CosiRandoms), "retained": len(chain.UsedRandoms)})
 }
